@@ -35,6 +35,9 @@ type vTree struct {
 	nodes  []*vNode
 	byHash map[common.Hash]int
 	minExt int // minimum number of extrinsics per body (an empty body does not survive the protobuf wire format)
+	// stateRoot, when set, is the state root of every block added afterwards (the real block importer insists that
+	// the parent's state root is the root of the trie the storage state hands out)
+	stateRoot *common.Hash
 }
 
 func vHeaderHash(h *types.Header) common.Hash {
@@ -63,10 +66,15 @@ func vBabeDigest(authority uint32, slot uint64) types.Digest {
 	return d
 }
 
-func newVTree(r *vcommon.Rand) *vTree {
-	t := &vTree{byHash: map[common.Hash]int{}}
+func newVTree(r *vcommon.Rand) *vTree { return newVTreeRoot(r, nil) }
+
+func newVTreeRoot(r *vcommon.Rand, stateRoot *common.Hash) *vTree {
+	t := &vTree{byHash: map[common.Hash]int{}, stateRoot: stateRoot}
 	var sr common.Hash
 	copy(sr[:], r.Bytes(32))
+	if stateRoot != nil {
+		sr = *stateRoot
+	}
 	g := &types.Header{Number: 0, StateRoot: sr, Digest: types.NewDigest()}
 	t.nodes = append(t.nodes, &vNode{idx: 0, parent: -1, number: 0, header: g, hash: vHeaderHash(g),
 		body: types.NewBody([]types.Extrinsic{}), tag: "g"})
@@ -82,6 +90,9 @@ func (t *vTree) addChild(r *vcommon.Rand, parent int, tag string, extras bool) i
 	var sr, er common.Hash
 	copy(sr[:], r.Bytes(32))
 	copy(er[:], r.Bytes(32))
+	if t.stateRoot != nil {
+		sr = *t.stateRoot
+	}
 	h := &types.Header{ParentHash: p.hash, Number: p.number + 1, StateRoot: sr, ExtrinsicsRoot: er,
 		Digest: vBabeDigest(uint32(r.Intn(4)), uint64(1000+len(t.nodes)))}
 	n := &vNode{idx: len(t.nodes), parent: parent, number: p.number + 1, header: h, hash: vHeaderHash(h), tag: tag}
